@@ -1159,10 +1159,11 @@ func (x *runner) runLifecycle(sp Spec) {
 		r.Count("ops_close_reopen", 1)
 		return true
 	}
+	extraMay := map[uint64]bool{}
 	fullLoad := func(phase string) {
 		extra["phase"] = phase
 		res := x.loadRegions(b, "LoadRegions", len(must), nil)
-		x.judgeLoad(sp, "regions", res, must, nil, false, extra)
+		x.judgeLoad(sp, "regions", res, must, extraMay, false, extra)
 	}
 	switch sp.Hist {
 	case "cancel-before-close":
@@ -1209,9 +1210,213 @@ func (x *runner) runLifecycle(sp Spec) {
 			return
 		}
 		fullLoad("control: Close, then cancel, reopen")
+	case "double-close":
+		if err := b.st.Close(); err != nil {
+			r.Violation("region-storage-close-or-reopen-fails", fmt.Sprintf("Close failed: %v", err), map[string]interface{}{"spec": sp})
+			return
+		}
+		var pan interface{}
+		func() {
+			defer func() { pan = recover() }()
+			if err := b.st.Close(); err != nil { // an error is fine, a panic or damage is not
+				r.Count("lifecycle_second_close_returned_error", 1)
+			}
+		}()
+		if pan != nil {
+			r.Violation("region-storage-double-close-panics", fmt.Sprintf("the second Close panicked: %v", pan), map[string]interface{}{"spec": sp})
+			return
+		}
+		b.cancel()
+		b.rs = nil
+		if err := b.openRS(b.rsDir); err != nil {
+			r.Violation("region-storage-close-or-reopen-fails", fmt.Sprintf("reopen after a double Close failed: %v", err), map[string]interface{}{"spec": sp})
+			return
+		}
+		fullLoad("Close, Close again, reopen")
+	case "save-flush-after-close":
+		if err := b.st.Close(); err != nil {
+			r.Violation("region-storage-close-or-reopen-fails", fmt.Sprintf("Close failed: %v", err), map[string]interface{}{"spec": sp})
+			return
+		}
+		// the closed object is still used (a late heartbeat): whatever SaveRegion AND a following Flush
+		// acknowledge with nil has to be there afterwards; errors promise nothing
+		var pan interface{}
+		func() {
+			defer func() { pan = recover() }()
+			late := map[uint64]item{}
+			for _, id := range lateIDs[:1+rng.Intn(len(lateIDs))] {
+				reg := genRegion(rng, id, 7, "small", 0, 1)
+				if err := b.st.SaveRegion(reg); err != nil {
+					r.Count("lifecycle_save_after_close_returned_error", 1)
+					continue
+				}
+				bs, _ := reg.Marshal()
+				late[id] = item{Bytes: bs}
+			}
+			if err := b.st.Flush(); err != nil {
+				r.Count("lifecycle_flush_after_close_returned_error", 1)
+				for id := range late {
+					extraMay[id] = true
+				}
+			} else {
+				r.Count("lifecycle_flush_after_close_returned_nil", 1)
+				for id, it := range late {
+					must[id] = it
+				}
+			}
+		}()
+		if pan != nil {
+			r.Violation("region-storage-use-after-close-panics", fmt.Sprintf("SaveRegion / Flush on a closed region storage panicked: %v", pan), map[string]interface{}{"spec": sp})
+			return
+		}
+		b.cancel()
+		b.rs = nil
+		if err := b.openRS(b.rsDir); err != nil {
+			r.Violation("region-storage-close-or-reopen-fails", fmt.Sprintf("reopen failed: %v", err), map[string]interface{}{"spec": sp})
+			return
+		}
+		fullLoad("Close, SaveRegion + Flush on the closed object, reopen")
 	default:
 		r.Inconclusive("unknown lifecycle history %q", sp.Hist)
 		return
 	}
 	r.Count("lifecycle_cases_judged", 1)
+}
+
+// runLdbLifecycle: LevelDB used as a plain kv: Close twice, then open the directory again.
+func (x *runner) runLdbLifecycle(sp Spec) {
+	r := x.r
+	rng := rand.New(rand.NewSource(sp.Seed))
+	b, err := newBackend("leveldb")
+	if err != nil {
+		r.Inconclusive("backend: %v", err)
+		return
+	}
+	defer b.close()
+	ids := genIDs(rng, sp.IDGen, sp.N)
+	regs, stores := map[uint64]item{}, map[uint64]item{}
+	for i, id := range ids {
+		if i%2 == 0 {
+			reg := genRegion(rng, id, 0, "edgy", 0, 1)
+			if err := b.st.SaveRegion(reg); err != nil {
+				r.Inconclusive("SaveRegion: %v", err)
+				return
+			}
+			bs, _ := reg.Marshal()
+			regs[id] = item{Bytes: bs}
+		} else {
+			s := genStore(rng, id, 0, false)
+			if err := b.st.SaveStore(s); err != nil {
+				r.Inconclusive("SaveStore: %v", err)
+				return
+			}
+			bs, _ := s.Marshal()
+			stores[id] = item{Bytes: bs, LW: 1, RW: 1}
+		}
+	}
+	var pan interface{}
+	func() {
+		defer func() { pan = recover() }()
+		if err := b.ldb.Close(); err != nil {
+			r.Violation("leveldb-kv-close-fails", fmt.Sprintf("LeveldbKV.Close failed: %v", err), map[string]interface{}{"spec": sp})
+		}
+		if err := b.ldb.Close(); err != nil {
+			r.Count("lifecycle_second_close_returned_error", 1)
+		}
+		// reads on the closed kv must fail or be empty-handed, not crash
+		if err := b.st.LoadStores(func(*core.StoreInfo) {}); err != nil {
+			r.Count("lifecycle_load_on_closed_kv_returned_error", 1)
+		}
+	}()
+	if pan != nil {
+		r.Violation("leveldb-kv-use-after-close-panics", fmt.Sprintf("Close twice / load on the closed LevelDB kv panicked: %v", pan), map[string]interface{}{"spec": sp})
+		return
+	}
+	b.ldb = nil
+	if err := b.reopenLDB(); err != nil {
+		r.Violation("leveldb-kv-reopen-fails", fmt.Sprintf("the LevelDB directory cannot be opened again after a double Close: %v", err), map[string]interface{}{"spec": sp})
+		return
+	}
+	extra := map[string]interface{}{"family": "lifecycle", "phase": "LevelDB kv: Close, Close, reopen"}
+	x.judgeLoad(sp, "stores", x.loadStores(b, len(stores)), stores, nil, false, extra)
+	x.judgeLoad(sp, "regions", x.loadRegions(b, "LoadRegions", len(regs), nil), regs, nil, false, extra)
+	r.Count("lifecycle_cases_judged", 1)
+}
+
+// runEtcdCancel (thorough): the etcd client the kv is built on is closed (its context cancelled) in
+// the middle of a pruning load; the load has to end (error or complete), and a retry over a fresh
+// client with the same cache has to leave storage == cache.
+func (x *runner) runEtcdCancel(sp Spec) {
+	r := x.r
+	rng := rand.New(rand.NewSource(sp.Seed))
+	b, err := newBackend("etcd-own")
+	if err != nil {
+		r.Inconclusive("backend: %v", err)
+		return
+	}
+	defer b.close()
+	ids := genIDs(rng, sp.IDGen, sp.N)
+	world := genWorld(rng, ids, "small")
+	must := map[uint64]item{}
+	for _, reg := range world {
+		if err := b.st.SaveRegion(reg); err != nil {
+			r.Inconclusive("SaveRegion: %v", err)
+			return
+		}
+		bs, _ := reg.Marshal()
+		must[reg.Id] = item{Bytes: bs}
+		r.Count("ops_save_region", 1)
+	}
+	lim, _ := setLimit(b, sp, must, feasiblePage)
+	cache := core.NewBasicCluster()
+	reported := map[uint64]bool{}
+	at := 1 + rng.Intn(feasiblePage)
+	n := 0
+	closing := true
+	cb := func(ri *core.RegionInfo) []*core.RegionInfo {
+		n++
+		if closing && n == at {
+			b.cli.Close() // cancels the client context: every later read fails
+			r.Count("etcd_client_closed_mid_load", 1)
+		}
+		ov := cache.CheckAndPutRegion(ri)
+		for _, o := range ov {
+			reported[o.GetID()] = true
+		}
+		return ov
+	}
+	res := x.loadRegions(b, "LoadRegions", len(must), cb)
+	extra := map[string]interface{}{"phase": "etcd client closed at delivery", "at": at, "response_limit_bytes": lim}
+	x.judgeLoad(sp, "regions", res, must, nil, true, extra)
+	if res.Err != nil {
+		r.Count("loads_failed_by_closed_etcd_client", 1)
+	}
+	if res.Loop != nil || res.PdPanic != "" || res.Budget != nil || res.Aborted {
+		return
+	}
+	closing = false
+	b.cli = nil
+	if err := b.reconnect(); err != nil {
+		r.Inconclusive("reconnect: %v", err)
+		return
+	}
+	now, err := b.rawRegions()
+	if err != nil {
+		r.Inconclusive("raw scan: %v", err)
+		return
+	}
+	must2 := map[uint64]item{}
+	for id := range now {
+		if it, ok := must[id]; ok {
+			must2[id] = it
+		}
+	}
+	lim, _ = setLimit(b, sp, must2, feasiblePage)
+	res2 := x.loadRegions(b, "LoadRegions", len(must2), cb)
+	extra["phase"] = "retry over a fresh client with the same cache"
+	und := x.judgeLoad(sp, "regions", res2, must2, nil, false, extra)
+	if res2.Err != nil || res2.Loop != nil || res2.PdPanic != "" || res2.Budget != nil || res2.Aborted {
+		return
+	}
+	x.checkPruned(sp, b, "LoadRegions", res2, must, cache, reported, und, lim)
 }
